@@ -84,7 +84,8 @@ func wellFormed(d prog.Diag, urls map[string]string, pkgFiles map[string]bool, n
 	if pkgFiles != nil && !pkgFiles[d.File] {
 		probs = append(probs, "position-outside-package-files")
 	}
-	if strings.HasSuffix(d.File, "_test.go") {
+	if strings.HasSuffix(d.File, "_test.go") || strings.Contains(d.File, "testdata") {
+		// default configuration: test files and every path containing "testdata" are excluded
 		probs = append(probs, "position-in-excluded-file")
 	}
 	hasExcerpt := strings.Contains(d.Message, " | ")
@@ -122,7 +123,23 @@ func C17(tier common.Tier) int {
 
 	base := e1.IgBases()[0]
 	bdir := root + "/base"
-	drv.WriteModule(bdir, base.Program())
+	// the covering module also contains files the default configuration excludes, each with violations:
+	// a file whose NAME contains "testdata", an in-package test file, and a package under testdata/
+	withExcluded := func(p *prog.Program) *prog.Program {
+		q := &prog.Program{}
+		for _, pk := range p.Pkgs {
+			if pk.Path == e1.PathU {
+				pk.Files = append(append([]prog.File(nil), pk.Files...),
+					prog.File{Name: "load_testdata.go", Src: "package u\n\nimport \"ex.com/m/d\"\n\nfunc loadTestdata(x *d.T) {\n\tx.F = 1\n\t_ = d.T{}\n\td.Helper()\n}\n"},
+					prog.File{Name: "extra_test.go", Src: "package u\n\nimport \"ex.com/m/d\"\n\nfunc inTest(x *d.T) {\n\tx.F = 1\n\t_ = new(d.T)\n}\n"})
+			}
+			q.Pkgs = append(q.Pkgs, pk)
+		}
+		q.Pkgs = append(q.Pkgs, prog.Pkg{Path: "ex.com/m/testdata/fix", Files: []prog.File{{Name: "fix.go",
+			Src: "package fix\n\nimport \"ex.com/m/d\"\n\nfunc fix(x *d.T) {\n\tx.F = 1\n}\n"}}})
+		return q
+	}
+	drv.WriteModule(bdir, withExcluded(base.Program()))
 	pkgFilesOf := func(p *prog.Program) map[string]map[string]bool {
 		m := map[string]map[string]bool{}
 		for _, pk := range p.Pkgs {
@@ -145,12 +162,12 @@ func C17(tier common.Tier) int {
 			}
 		}
 	}
-	out := drv.Run(drv.Req{Driver: drv.Standalone, Dir: bdir})
+	out := drv.Run(drv.Req{Driver: drv.Standalone, Dir: bdir, Patterns: []string{"./...", "./testdata/fix"}})
 	if c := out.Crashed(); c != "" {
 		run.Report(common.Cex{Sig: "crash|base", Summary: "binary crashed on the covering program: " + c})
 	}
 	checkFormat("covering/standalone", out.Diags, base.Program(), true)
-	vout := drv.Run(drv.Req{Driver: drv.Vet, Dir: bdir})
+	vout := drv.Run(drv.Req{Driver: drv.Vet, Dir: bdir, Patterns: []string{"./...", "./testdata/fix"}})
 	checkFormat("covering/vet", vout.Diags, base.Program(), true)
 	codesSeen := map[string]bool{}
 	for _, d := range out.Diags {
@@ -183,7 +200,7 @@ func C17(tier common.Tier) int {
 			}
 		}
 		if fi < 0 {
-			common.Fatalf("diagnostic in unknown file %s", d.File)
+			continue // a diagnostic in one of the excluded extra files: already reported by the format rules
 		}
 		baseDiags = append(baseDiags, baseDiag{fi, d.Line, d.Code})
 	}
